@@ -6,6 +6,7 @@ package harness
 
 import (
 	"fmt"
+	"github.com/trustbloc/sidetree-go/pkg/api/operation"
 	"strings"
 	"testing"
 
@@ -42,7 +43,7 @@ func genC09Protocol(t *rapid.T, label string, delta uint64) protocol.Protocol {
 func TestC09_Window(t *testing.T) {
 	st := statsFor("C09")
 	check(t, "C09", 1500, func(t *rapid.T) {
-		delta := rapid.SampledFrom([]uint64{0, 1, 2, 5, 600, 7200}).Draw(t, "timeDelta")
+		delta := rapid.SampledFrom([]uint64{0, 1, 2, 5, 600, 7200, 10000000000, 1 << 40}).Draw(t, "timeDelta")
 		p := genC09Protocol(t, "cfg", delta)
 		stack := newStack(p)
 		if rapid.Bool().Draw(t, "rejectingSubmissionValidator") {
@@ -137,7 +138,14 @@ func TestC09_Window(t *testing.T) {
 		want, wantOut := refApply(ref0, c, m, p)
 		desc := fmt.Sprintf("%s from=%d until=%d t=%d maxOperationTimeDelta=%d (maxDelta=%d maxOp=%d maxHash=%d nonce=%d) effective=%v",
 			typ, from, until, tm, delta, p.MaxDeltaSize, p.MaxOperationSize, p.MaxOperationHashLength, p.NonceSize, effective)
-		got, aerr := stack.Applier.Apply(anchoredBytes(typ, c.Bytes, suffix, m), lib0)
+		opUnderTest := anchoredBytes(typ, c.Bytes, suffix, m)
+		if rapid.IntRange(0, 2).Draw(t, "opAmongUnpublished") == 0 {
+			// the operation may itself be listed among the state's unpublished operations: its window counts all the same
+			withList := *lib0
+			withList.UnpublishedOperations = append([]*operation.AnchoredOperation{opUnderTest}, lib0.UnpublishedOperations...)
+			lib0 = &withList
+		}
+		got, aerr := stack.Applier.Apply(opUnderTest, lib0)
 		switch {
 		case wantOut == outRefused:
 			if aerr == nil {
@@ -146,7 +154,7 @@ func TestC09_Window(t *testing.T) {
 		case aerr != nil:
 			t.Fatalf("C09 operation refused (%v) but the window rule gives %s: %s", aerr, wantOut, desc)
 		default:
-			if cerr := compareModel(got, want, nil, nil); cerr != nil {
+			if cerr := compareModel(got, want, nil, lib0.UnpublishedOperations); cerr != nil {
 				t.Fatalf("C09 state after windowed operation differs (%s expected): %v\n %s", wantOut, cerr, desc)
 			}
 		}
